@@ -4,6 +4,10 @@ CONSTANTS
   Repo = "json"
   Savers = {"s1", "s2", "s3"}
   InitDocs <- InitDocs3
+  Keys = {"k1"}
+  Exps = {"zero"}
+  MaxNow = 1
+  MaxBatch = 0
   MaxObtain = 2
   MaxSaves = 2
   MaxVer = 6
@@ -12,5 +16,5 @@ CONSTANTS
   MaxOps = 0
 VIEW MCView
 INVARIANTS TypeOK AtMostOneWinner
-PROPERTIES VersionPlusOne AllFieldsStored FailedSaveChangesNothing FetchEqualsSavedButNil FetchEqualsSaved
+PROPERTIES VersionPlusOne SavedIsFetchable AllFieldsStored FailedSaveChangesNothing FetchEqualsSavedButNil FetchEqualsSaved
 CHECK_DEADLOCK FALSE
